@@ -190,8 +190,13 @@ pub fn beh_of(s: &str) -> ModificationBehavior {
 }
 
 pub fn layer_env_of(entries: &[EnvEntry]) -> LayerEnv {
+    // inserted in an order that differs from process to process (C04: the result does not depend on
+    // it; C20: neither do the written bytes)
+    use std::hash::{BuildHasher, Hasher};
+    let mut order: Vec<&EnvEntry> = entries.iter().collect();
+    fastrand::Rng::with_seed(std::collections::hash_map::RandomState::new().build_hasher().finish()).shuffle(&mut order);
     let mut e = LayerEnv::new();
-    for x in entries {
+    for x in order {
         e.insert(
             scope_of(&x.scope),
             beh_of(&x.beh),
@@ -235,6 +240,9 @@ impl Universe {
                 ee("launch", "override", b"E1_L", b"other"),
                 ee("process:worker", "append", b"E2_P", b"w"),
                 ee("process:web", "override", b"E2_W", b"x=y"),
+                // process names that differ only in a character outside [A-Za-z0-9._-]
+                ee("process:side kiq", "override", b"E2_S", b"space"),
+                ee("process:side:kiq", "override", b"E2_S", b"colon"),
             ],
         );
         u.envs.insert("e3".into(), vec![ee("process:web", "prepend", b"ONLY_PROC", b"p")]);
